@@ -198,6 +198,7 @@ type FullApp struct {
 	// the time of the next block only.
 	BlockStep time.Duration
 	NextTime  time.Time
+	settling  bool // inside the settle blocks runBlock inserts before a long time jump
 	// Absent[i] makes validator i not sign (BLOCK_ID_FLAG_ABSENT) from now on.
 	Absent map[int]bool
 	// NextMisbehavior is passed to (and cleared by) the next block.
@@ -600,6 +601,22 @@ func (fa *FullApp) header(h int64, t time.Time) cmtproto.Header {
 
 // runBlock executes one block with the given raw txs.  It never panics.
 func (fa *FullApp) runBlock(txs [][]byte) FABlockResult {
+	// CometBFT's LastCommit at height H holds the validators of H-1, and staking keeps a validator
+	// record for the whole unbonding time after it left that set.  A synthetic time jump longer than
+	// the unbonding time directly after a set change would let staking delete a validator that still
+	// signs the next LastCommit (SDK distribution then fails the block) - a history no real chain can
+	// have.  Let pending set changes take effect (two ordinary blocks) before such a jump.
+	if !fa.NextTime.IsZero() && fa.NextTime.Sub(fa.time) > 7*24*time.Hour && !fa.settling && !fa.Broken &&
+		!(faSameVals(fa.vsPrev, fa.vsCur) && faSameVals(fa.vsCur, fa.vsNext)) {
+		nt, pre, end, mis := fa.NextTime, fa.preHooks, fa.endHooks, fa.NextMisbehavior
+		fa.NextTime, fa.preHooks, fa.endHooks, fa.NextMisbehavior = time.Time{}, nil, nil, nil
+		fa.settling = true
+		for i := 0; i < 2 && !fa.Broken; i++ {
+			fa.runBlock(nil)
+		}
+		fa.settling = false
+		fa.NextTime, fa.preHooks, fa.endHooks, fa.NextMisbehavior = nt, pre, end, mis
+	}
 	h := fa.height + 1
 	t := fa.time.Add(fa.BlockStep)
 	if !fa.NextTime.IsZero() {
@@ -661,6 +678,18 @@ func (fa *FullApp) runBlock(txs [][]byte) FABlockResult {
 		ResultsHash: cmttypes.NewResults(resp.TxResults).Hash(),
 	})
 	return out
+}
+
+func faSameVals(a, b []faValidator) bool {
+	if len(a) != len(b) {
+		return false
+	}
+	for i := range a {
+		if string(a[i].addr) != string(b[i].addr) || a[i].power != b[i].power {
+			return false
+		}
+	}
+	return true
 }
 
 func faBlockHash(tag string, h int64) []byte {
